@@ -77,10 +77,10 @@ Qed.
 
 Lemma ht_value_access n c accs b :
   cdepth c <= Dx + b -> b <= n ->
-  ht n (let '(c', k) := value_access big_fuel c accs in add_err k ;;; ret c') (le 0).
+  ht n (let '(c', k) := value_access (va_need c accs) c accs in add_err k ;;; ret c') (le 0).
 Proof.
-  intros Hc Hb. pose proof (cdepth_value_access big_fuel c accs) as H.
-  destruct (value_access big_fuel c accs) as [c' k]. cbn [fst] in H.
+  intros Hc Hb. pose proof (cdepth_value_access (va_need c accs) c accs) as H.
+  destruct (value_access (va_need c accs) c accs) as [c' k]. cbn [fst] in H.
   eapply ht_bind; [apply ht_add_err|]. intros _ n1 Hn1 _. apply ht_ret. intros N HN. unfold le. lia.
 Qed.
 
@@ -95,7 +95,7 @@ Proof.
   intro H. induction ps as [|[text [p|]] r IH]; intros acc unk sec n.
   - rewrite interp_go_nil. leaf1.
   - rewrite interp_go_ref. eapply ht_bind; [apply H|]. intros pv n1 _ _.
-    destruct (to_string big_fuel pv) as [[s0 u0] sc]. apply IH.
+    destruct (to_string (ts_need pv) pv) as [[s0 u0] sc]. apply IH.
   - rewrite interp_go_text. apply IH.
 Qed.
 
@@ -225,7 +225,7 @@ Lemma walk_body_ht ee wk rx rsec rbase rid accs :
 Proof.
   intros Hrb Hee Hwk n. unfold walk_body. destruct accs as [|a rest]; [apply Hee|].
   assert (Hdef : ht n (v <- ee rx rsec rbase rid ;;
-                       let '(c, k) := value_access big_fuel v (a :: rest) in add_err k ;;; ret c) (le 0)).
+                       let '(c, k) := value_access (va_need v (a :: rest)) v (a :: rest) in add_err k ;;; ret c) (le 0)).
   { eapply ht_bind; [apply Hee|]. intros v n1 Hn1 Hv. apply (ht_value_access n1 v (a :: rest) n1); [unfold le in Hv; lia|lia]. }
   assert (Herr : ht n (err ;;; ret invalid_access) (le 0)).
   { eapply ht_bind; [apply ht_err|]. intros _ n1 _ _. leaf1. }
@@ -286,15 +286,15 @@ Proof.
       eapply ht_bind with (Q1 := anyq); [apply ht_ret; intros; exact I|]. intros _ n3 _ _.
       eapply ht_bind; [apply (Het (IIdx 0)); reflexivity|]. intros [iv ok] n4 _ Hiv. cbn [fst] in Hiv.
       destruct (negb ok || contains_unknowns iv || w_check W); [leaf1|].
-      destruct (export big_fuel iv) as [xin|] eqn:Ex; [|h_tac].
+      destruct (export_t iv) as [xin|] eqn:Ex; [|h_tac].
       destruct xin as [sx ux x0|sx ux lx|sx ux mx]; [h_tac|h_tac|].
       eapply ht_bind; [apply ht_call|]. intros failed2 n5 Hn5 _. eapply ht_bind; [apply ht_emit|]. intros _ n6 Hn6 _.
       cbv zeta. destruct failed2; [h_tac|].
       destruct (pv_beh p) as [|v|] eqn:Eb; [| |h_tac].
       * apply ht_ret. intros N HN. unfold le.
-        pose proof (cdepth_unexport big_fuel false (XObj sx ux mx)). pose proof (x_depth_export _ _ _ Ex). lia.
+        pose proof (cdepth_unexport (S (x_depth (XObj sx ux mx))) false (XObj sx ux mx)). pose proof (x_depth_export _ _ _ (export_t_sound _ _ Ex)). lia.
       * apply ht_ret. intros N HN. unfold le.
-        pose proof (cdepth_unexport big_fuel false v). pose proof (Hprov _ _ _ Hal Eb). lia.
+        pose proof (cdepth_unexport (S (x_depth v)) false v). pose proof (Hprov _ _ _ Hal Eb). lia.
     + eapply ht_bind; [apply ht_err|]. intros _ n3 _ _.
       eapply ht_bind; [apply (Het (IIdx 0)); reflexivity|]. intros [iv ok] n4 _ _. leaf1.
   - leaf1.
